@@ -13,7 +13,7 @@ namespace EG.Driver
 open EG
 
 /-- What the `styled.*` streams observe of one styled shape. -/
-structure StyledView where
+private structure StyledView where
   calls : List Call     -- `draw()` as target calls
   pixels : Writes       -- `pixels()`
   bbox : Rect           -- `bounding_box()` of the styled shape
@@ -25,7 +25,7 @@ private def parseOptColor (s : String) : Option Color := if s == "-" then none e
 private def alignOf : Nat → StrokeAlignment | 0 => .inside | 1 => .center | _ => .outside
 
 /-- style tokens: `fill stroke width align`. -/
-def Toks.style (t : Toks) : Style × Toks :=
+private def Toks.style (t : Toks) : Style × Toks :=
   let (f, t) := t.str
   let (s, t) := t.str
   let (w, t) := t.nat
@@ -33,31 +33,31 @@ def Toks.style (t : Toks) : Style × Toks :=
   (⟨parseOptColor f, parseOptColor s, w, alignOf a⟩, t)
 
 /-- `Rec::unbounded()` of the harness. -/
-def unboundedBox : Rect := ⟨⟨-1048576, -1048576⟩, ⟨2097152, 2097152⟩⟩
+private def unboundedBox : Rect := ⟨⟨-1048576, -1048576⟩, ⟨2097152, 2097152⟩⟩
 
 /-- `small_map`: maps with more than 600 entries print `big:<n>`. -/
-def smallMap (m : List (Pt × Nat)) : String :=
+private def smallMap (m : List (Pt × Nat)) : String :=
   if m.length ≤ 600 then fmtPix m else s!"big:{m.length}"
 
 /-- Canonical map left on `R1` (draw_iter only, box `B`) / `R2` (native fills) by a call list. -/
-def mapDefault (B : Rect) (calls : List Call) : List (Pt × Nat) :=
+private def mapDefault (B : Rect) (calls : List Call) : List (Pt × Nat) :=
   canonPix (calls.flatMap (Call.writesDefault B))
-def mapNative (B : Rect) (calls : List Call) : List (Pt × Nat) :=
+private def mapNative (B : Rect) (calls : List Call) : List (Pt × Nat) :=
   canonPix (calls.flatMap (Call.writesNative B))
 
 /-- Call log of `R1`: every call arrives as `draw_iter` and is logged with all pixels offered
 (also those outside the box). -/
-def fmtLogR1 (B : Rect) (calls : List Call) : String :=
+private def fmtLogR1 (B : Rect) (calls : List Call) : String :=
   if calls.isEmpty then "-"
   else "|".intercalate (calls.map (fun c => "di:" ++ fmtPix (c.lowerDefault B)))
 
-def shiftPix (d : Pt) (m : List (Pt × Nat)) : List (Pt × Nat) := m.map (fun w => (w.1 + d, w.2))
+private def shiftPix (d : Pt) (m : List (Pt × Nat)) : List (Pt × Nat) := m.map (fun w => (w.1 + d, w.2))
 
-def b01 (b : Bool) : String := if b then "1" else "0"
+private def b01 (b : Bool) : String := if b then "1" else "0"
 
 /-- Result line of one `styled.*` op from the view of the shape (`view d` = the view of the
 primitive translated by `d`); `t` = the tokens after the style. -/
-def styledResult (stream : String) (view : Pt → StyledView) (t : Toks) : Option String :=
+private def styledResult (stream : String) (view : Pt → StyledView) (t : Toks) : Option String :=
   let v := view ⟨0, 0⟩
   match stream with
   | "styled.paths" =>
@@ -83,7 +83,7 @@ def styledResult (stream : String) (view : Pt → StyledView) (t : Toks) : Optio
     some s!"n={m0.length} shifted={b01 (md == shiftPix d m0)} bb={fmtRect v.bbox} bbd={fmtRect vd.bbox}"
   | _ => none
 
-def rectView (s : Style) (r : Rect) : StyledView :=
+private def rectView (s : Style) (r : Rect) : StyledView :=
   { calls := StyledRect.drawCalls s r
     pixels := StyledRect.pixelsList s r
     bbox := StyledRect.styledBoundingBox s r
